@@ -1073,3 +1073,12 @@ for _d in sorted(glob.glob(os.path.join(os.path.dirname(os.path.abspath(__file__
                         _props.update(_ps)
         for _p in sorted(_props):
             benign_patch(_p, "agent-%s-%s" % (_own, _base), os.path.join("benign", _own, os.path.basename(_f)), "independent benign refactor")
+
+# ---- seed round 8 (DESIGN §19): the three first-contact misses and their neighbours
+from_patch("C05","seed-bounded-meter-on-reward-sweep","seeded/C05-bounded-meter-on-reward-sweep/patch.diff","C05/R8","bounded-gas-meter","seed")
+from_patch("C06","seed-telemetry-flag-bills-store-reads","seeded/C06-telemetry-flag-bills-store-reads/patch.diff","C06/R6","reads-mutable-global:metricsEnabled","seed")
+from_patch("C16","seed-unicode-names-priced-by-bytes","seeded/C16-unicode-names-priced-by-bytes/patch.diff","C16/R10","rns:name-pattern-single-byte","seed")
+m("C16","name-pattern-any-character","x/rns/types/utils.go",
+  'regexp.MustCompile(`^[\\w-]+$`)','regexp.MustCompile(`^[^.]+$`)',"C16/R10","rns:name-pattern-single-byte")
+benign("C16","name-pattern-spelled-out",[("x/rns/types/utils.go",'regexp.MustCompile(`^[\\w-]+$`)','regexp.MustCompile(`^[0-9A-Za-z_-]+$`)')])
+benign("C05","begin-block-explicit-infinite-meter",[("x/storage/abci.go",'k.RunRewardBlock(ctx)','k.RunRewardBlock(ctx.WithGasMeter(sdk.NewInfiniteGasMeter()))')])
